@@ -428,7 +428,7 @@ def cfg_diff(a, b, path=""):
 
 def run(ctx):
     binp = build_harness(ctx)
-    msgs, spans = regen(ctx, ["config_tables", "config_conv", "config_sites"])
+    msgs, spans = regen(ctx, ["config_tables", "config_conv", "config_sites", "config_steps"])
     ctx.cov["translated_spans"] = {k: v for k, v in spans.items() if k.startswith(("pm_type", "polarization", "math::sigfigs", "config::", "utils::from_kelvin"))}
     for m in msgs:
         ctx.proof_failures.append(("Gen/Config*.v", "translator", m))
